@@ -42,12 +42,17 @@ def draw(rng, n, sizes, wide=False, homo=False):
         vars_ = [np.full((n, e), levels[i % 2]) * np.exp(rng.normal(size=(n, 1)) * 0.1) for i, e in enumerate(sizes)]
     else:
         vars_ = [np.exp(rng.uniform(math.log(1e-3), math.log(1e3), size=(n, 1 if homo else e))) * np.ones((n, e)) for e in sizes]
-    d = np.abs(rng.normal(size=(n, n))) * rng.choice([1e-3, 1.0, 50.0])
+    # distances on any scale (a matrix of tiny distances is as good as any), zero distances, three coincident samples
+    d = np.abs(rng.normal(size=(n, n))) * rng.choice([1e-15, 1e-10, 1e-3, 1.0, 50.0])
     d = d + d.T
     np.fill_diagonal(d, 0.0)
-    if rng.random() < 0.3 and n > 3:
+    u = rng.random()
+    if u < 0.3 and n > 3:
         i, j = 1, 0
         d[i, j] = d[j, i] = 0.0
+    elif u < 0.5 and n > 3:
+        for i, j in ((0, 1), (0, 2), (1, 2)):
+            d[i, j] = d[j, i] = 0.0
     return means, vars_, d
 
 
